@@ -44,7 +44,7 @@ Failing(r) ==
     [] r.kind = "vec" -> IF VecHolds(r) THEN {} ELSE {"AnglesVectorsInverse"}
     [] r.kind = "unch" -> IF CallerObjectUnchanged(r) THEN {} ELSE {"CallerObjectUnchanged " \o r.fn}
     [] r.kind = "shape" -> IF ArrayEqualsScalars(r) THEN {} ELSE {"ArrayEqualsScalars " \o r.fn \o " " \o ShapeClass(r.shape)}
-    [] r.kind = "form" -> IF FormIndependent(r) THEN {} ELSE {"FormIndependent " \o r.fn \o " " \o r.form}
+    [] r.kind = "form" -> IF FormIndependent(r) THEN {} ELSE {"FormIndependent " \o r.fn \o " " \o r.form \o " [integer arguments: " \o r.mix \o "]"}
     [] r.kind = "self" -> IF SelfHolds(r) THEN {} ELSE {(IF r.nnan > 0 THEN "NeverNaN " ELSE IF r.wrong > 0 /\ r.fn = "gcirc" THEN "Range " ELSE "SelfAndAntipodeExact ") \o r.fn \o " " \o r.conv \o " " \o r.rel}
     [] OTHER -> {"unknown record kind"}
 
@@ -101,6 +101,12 @@ Shortfalls ==
   (* every function is called with 8-bit, 16-bit and wide integer arguments (arrays and scalars where it takes them) *)
   \cup {"FormIndependent " \o x[1] \o " " \o x[2] : x \in {y \in FormFns \X {"8bit", "16bit", "wide"} :
            Count(LAMBDA r : r.kind = "form" /\ r.fn = y[1] /\ FormClass(r.form) = y[2]) < MinPer}}
+  (* ... and with the integer type given to every admitted subset of the arguments *)
+  \cup {"FormIndependent " \o x[1] \o " integer arguments " \o x[2] : x \in {y \in FormFns \X (GcircMixes \cup {"x", "cm", "points", "lon", "lat"}) :
+           /\ y[2] \in MixesOf(y[1])
+           /\ Count(LAMBDA r : r.kind = "form" /\ r.fn = y[1] /\ r.mix = y[2]) < MinPer}}
+  \cup {"FormIndependent gcirc integer arguments " \o x[1] \o " " \o x[2] : x \in {y \in {"ra", "dec", "p1", "p2"} \X {"8bit", "16bit", "wide"} :
+           Count(LAMBDA r : r.kind = "form" /\ r.fn = "gcirc" /\ r.mix = y[1] /\ FormClass(r.form) = y[2]) < MinPer}}
   \cup {"FormIndependent scalars " \o f : f \in {y \in {"gcirc", "stripe_to_eta", "stripe_to_incl"} :
            Count(LAMBDA r : r.kind = "form" /\ r.fn = y /\ ~r.arr) < MinPer}}
   \cup (IF Count(LAMBDA r : r.kind = "form" /\ r.fn = "gcirc" /\ r.form = "pyint") < MinPer THEN {"FormIndependent gcirc Python int"} ELSE {})
